@@ -24,17 +24,17 @@ type session struct {
 	Callback int      `json:"callbacks"`
 	MaxIn    int      `json:"max_inflight"`
 
-	Exited    bool   `json:"exited"`
-	ExitCode  int    `json:"exit_code"`
-	Closed    bool   `json:"stdin_closed"`
-	NoExit    string `json:"no_exit_cause,omitempty"` // stdin closed, process did not exit: why that is expected by the code
-	Hang      string `json:"hang,omitempty"`          // unexplained: no answer / no exit within the timeout
-	Crash     string `json:"crash,omitempty"`         // kind of crash
-	Frame     string `json:"frame,omitempty"`
-	Stderr    string `json:"stderr,omitempty"`
-	ProtoErr  string `json:"proto_err,omitempty"`
-	HeldUsed  bool   `json:"held_used"`
-	Cancelled int    `json:"cancelled_rebuilds"`
+	Exited    bool           `json:"exited"`
+	ExitCode  int            `json:"exit_code"`
+	Closed    bool           `json:"stdin_closed"`
+	NoExit    string         `json:"no_exit_cause,omitempty"` // stdin closed, process did not exit: why that is expected by the code
+	Hang      string         `json:"hang,omitempty"`          // unexplained: no answer / no exit within the timeout
+	Crash     string         `json:"crash,omitempty"`         // kind of crash
+	Frame     string         `json:"frame,omitempty"`
+	Stderr    string         `json:"stderr,omitempty"`
+	ProtoErr  string         `json:"proto_err,omitempty"`
+	HeldUsed  bool           `json:"held_used"`
+	Cancelled int            `json:"cancelled_rebuilds"`
 	Kinds     map[string]int `json:"kinds"`
 }
 
@@ -67,19 +67,19 @@ func msg(text string) map[string]interface{} {
 }
 
 type driver struct {
-	c      *client
-	o      sessionOpts
-	s      *session
-	rnd    *lockedRand
-	dir    string
-	keyMu  sync.Mutex
-	nkey   int
-	keys   []int // live context keys with their plug flag
-	plugOf map[int]string
-	unsafe bool // may send dispose while a cancel is outstanding (the crash scenario)
-	profile string
+	c        *client
+	o        sessionOpts
+	s        *session
+	rnd      *lockedRand
+	dir      string
+	keyMu    sync.Mutex
+	nkey     int
+	keys     []int // live context keys with their plug flag
+	plugOf   map[int]string
+	unsafe   bool // may send dispose while a cancel is outstanding (the crash scenario)
+	profile  string
 	deadline time.Time
-	kinds  map[string]int
+	kinds    map[string]int
 }
 
 func (d *driver) newKey() int {
